@@ -37,6 +37,10 @@ def build_library(it, P, shape, concrete_field_keys=False):
         elif sh == "implicit":
             b = mk("ImplicitComment", comment=Hole(f"b{bi}.comment"), start_line=0, raw=Hole(f"b{bi}.raw"))
             descr.append(("implicit", bi))
+        elif sh == "divider":
+            # equal but distinct free-text blocks (same content, same line): equality must not steer the writer
+            b = mk("ImplicitComment", comment=Hole("divider.comment"), start_line=0, raw=Hole("divider.raw"))
+            descr.append(("divider", bi))
         elif sh == "failed":
             b = mk("ParsingFailedBlock", error=Unknown("err"), start_line=0, raw=Hole(f"b{bi}.raw"))
             descr.append(("failed", bi))
@@ -104,6 +108,8 @@ def ref_write(descr, opts, assumptions, all_key_lens):
             pieces += ["@comment{", H(f"b{bi}.comment"), "}\n"]
         elif kind == "implicit":
             pieces += [H(f"b{bi}.comment"), "\n"]
+        elif kind == "divider":
+            pieces += [H("divider.comment"), "\n"]
         elif kind == "failed":
             pieces += [Fmt(opts["parsing_failed_comment"], (), (("n", Lin({("lines", f"b{bi}.raw"): 1}, 0)),)), "\n", H(f"b{bi}.raw"), "\n"]
         if idx < len(descr) - 1:
@@ -119,6 +125,7 @@ SHAPES = [
     [("entry", 3), ("entry", 1)],
     ["string", "preamble", "comment", "implicit", "failed"],
     ["failed", ("entry", 2), "implicit", ("entry", 0), "preamble"],
+    ["divider", ("entry", 1), "divider", "string", "divider"],
 ]
 
 
